@@ -218,3 +218,45 @@ package state
 //@   arith int
 //@   requires s != nil && s.state != nil && s.state.db != nil && addr != nil && key != nil
 //@   ensures value: result1 == nil ==> result0 == lastUpdatedAsOf(*addr, *key, s.blockNum)
+
+// ---- reverting a block removes exactly the history entries that block logged (C04) ----------------
+// The three deletions are trusted to remove the entry of (contract[, slot], block); the sets record
+// which entries were removed. What is proved is deleteHistory's coverage: every slot, nonce and
+// class hash the block's diff touched (deployments log a nonce and a class hash too), for this
+// block only, and nothing that the diff does not mention.
+//@ ghost func slot(a felt.Felt, k felt.Felt) felt.Felt
+//@ ghost var storageDel set[felt.Felt]
+//@ ghost var nonceDel set[felt.Felt]
+//@ ghost var classDel set[felt.Felt]
+//@ func DeleteStorageHistory
+//@   trusted
+//@   sets storageDel = setadd(storageDel, slot(*addr, *key))
+//@ func DeleteNonceHistory
+//@   trusted
+//@   sets nonceDel = setadd(nonceDel, *addr)
+//@ func DeleteClassHashHistory
+//@   trusted
+//@   sets classDel = setadd(classDel, *addr)
+//@ func (*State).deleteHistory
+//@   props C04
+//@   arith int
+//@   requires s != nil && diff != nil
+//@   assigns storageDel, nonceDel, classDel
+//@   callsite DeleteStorageHistory@*: of_this_block: $3 == blockNum
+//@   callsite DeleteNonceHistory@*: of_this_block: $2 == blockNum
+//@   callsite DeleteClassHashHistory@*: of_this_block: $2 == blockNum
+//@   loop 1: invariant contracts_so_far: forall a felt.Felt, k felt.Felt :: visited(a) && in(diff.StorageDiffs[a], k) ==> setin(storageDel, slot(a, k))
+//@   loop 2: invariant earlier_contracts: forall a felt.Felt, k felt.Felt :: visited(1, a) && a != addr && in(diff.StorageDiffs[a], k) ==> setin(storageDel, slot(a, k))
+//@   loop 2: invariant slots_so_far: forall k felt.Felt :: visited(k) ==> setin(storageDel, slot(addr, k))
+//@   loop 3: invariant nonces_so_far: forall a felt.Felt :: visited(a) ==> setin(nonceDel, a)
+//@   loop 3: invariant only_nonces_of_the_diff: forall a felt.Felt :: setin(nonceDel, a) ==> old(setin(nonceDel, a)) || in(diff.Nonces, a)
+//@   loop 4: invariant classes_so_far: forall a felt.Felt :: visited(a) ==> setin(classDel, a)
+//@   loop 4: invariant only_classes_of_the_diff: forall a felt.Felt :: setin(classDel, a) ==> old(setin(classDel, a)) || in(diff.ReplacedClasses, a)
+//@   loop 5: invariant deployed_so_far: forall a felt.Felt :: visited(a) ==> setin(nonceDel, a) && setin(classDel, a)
+//@   loop 5: invariant nonces_kept: forall a felt.Felt :: in(diff.Nonces, a) ==> setin(nonceDel, a)
+//@   loop 5: invariant classes_kept: forall a felt.Felt :: in(diff.ReplacedClasses, a) ==> setin(classDel, a)
+//@   loop 5: invariant only_of_the_diff: forall a felt.Felt :: (setin(nonceDel, a) ==> old(setin(nonceDel, a)) || in(diff.Nonces, a) || in(diff.DeployedContracts, a)) && (setin(classDel, a) ==> old(setin(classDel, a)) || in(diff.ReplacedClasses, a) || in(diff.DeployedContracts, a))
+//@   ensures storage: result == nil ==> (forall a felt.Felt, k felt.Felt :: in(diff.StorageDiffs, a) && in(diff.StorageDiffs[a], k) ==> setin(storageDel, slot(a, k)))
+//@   ensures nonces: result == nil ==> (forall a felt.Felt :: in(diff.Nonces, a) || in(diff.DeployedContracts, a) ==> setin(nonceDel, a))
+//@   ensures classes: result == nil ==> (forall a felt.Felt :: in(diff.ReplacedClasses, a) || in(diff.DeployedContracts, a) ==> setin(classDel, a))
+//@   ensures nothing_else: forall a felt.Felt :: (setin(nonceDel, a) ==> old(setin(nonceDel, a)) || in(diff.Nonces, a) || in(diff.DeployedContracts, a)) && (setin(classDel, a) ==> old(setin(classDel, a)) || in(diff.ReplacedClasses, a) || in(diff.DeployedContracts, a))
